@@ -53,7 +53,9 @@ Init ==
   /\ \/ /\ "split" \in Ops /\ op = "split" /\ a1 \in Hays /\ a2 \in Needles \cup {<<>>} /\ a3 = <<>> /\ acc = <<>>
      \/ /\ "replace" \in Ops /\ op = "replace" /\ a1 \in Hays /\ a2 \in Patterns /\ a3 \in Repls /\ acc = <<>>
      \/ /\ "join" \in Ops /\ op = "join" /\ a1 \in ElemLists /\ a2 \in Infixes /\ a3 = <<>> /\ acc = <<>>
-     \/ /\ "starts" \in Ops /\ op = "starts" /\ a1 \in Hays /\ a2 \in Hays /\ a3 = <<>> /\ acc = <<>>
+     \/ /\ "starts" \in Ops /\ op = "starts" /\ a1 \in Hays /\ a3 = <<>> /\ acc = <<>>
+        \* candidates: every prefix of the full string, one byte more, and the short patterns (prefix or not)
+        /\ a2 \in { SubSeq(a1, 1, k) : k \in 0..Len(a1) } \cup { a1 \o <<x>> : x \in {97, 32} } \cup Patterns
 
 SplitRaise ==
   /\ op = "split" /\ phase = "run" /\ a2 = <<>>
